@@ -73,6 +73,7 @@ struct SpawnRec {
   std::map<std::string, int64_t> in_mtime_at_start;                  // C03: effective inputs -> mtime when the command started
   bool killed = false;
   bool deps_kind_depfile = false;
+  bool pre_depfile = false;         // the depfile existed when the command started
   std::string depfile;
   int deps_kind = 0;
   std::vector<std::string> reported_deps;   // what the command tells ninja it read (depfile list / showIncludes lines)
